@@ -125,6 +125,20 @@ def shapes(tier, seed):
         out.append(dict(TWO, cond=l))
         out.append(dict(TWO, cond=["not", l]))
         out.append(dict(TWO, cond=l, select=[["v", "y"], ["v", "x"]]))
+    # a disjunction whose branches mention different variable sets (one a strict subset of the other): an assignment satisfying
+    # both branches is still ONE solution
+    for j_ in J[:4]:
+        for s_ in SX[:2] + SY[:2]:
+            out.append(dict(TWO, cond=["or", j_, s_]))
+            out.append(dict(TWO, cond=["or", s_, j_]))
+    out.append(dict(TWO, cond=["or", SX[0], SY[0]]))
+    for j_ in (J[0], J[3]):
+        # ... pinned by a further condition on the variable the smaller branch does not mention, so that a single solution can
+        # satisfy both branches
+        out.append(dict(TWO, cond=["and", ["or", j_, SX[0]], SY[0]]))
+        out.append(dict(TWO, cond=["and", SY[1], ["or", j_, SX[1]]]))
+        out.append(dict(TWO, cond=["and", ["or", j_, SY[0]], SX[0]]))
+        out.append(dict(TWO, pools={"X": 2, "Y": 1}, cond=["or", j_, SX[0]]))
     leaves = J[:5] + SX[:2] + SY[:2]
     for l1 in leaves:
         for l2 in leaves:
